@@ -26,6 +26,7 @@
 EXTENDS XlEval
 
 CONSTANTS Mech, MaxLen, ShapeIds,
+          NSet,     \* how many of SetVals the instance uses
           Ops,      \* subset of {"set", "setname", "evaluate", "get"}: which calls the instance explores
           NEval     \* number of Evaluator instances sharing the model
 VARIABLES shape, inp, stored, evald, gmemo, obs, hist, leak
@@ -58,7 +59,8 @@ ShapeDef(i) ==
     [] i = "overlap" ->      \* two overlapping range addresses over the same inputs
         [cells |-> ( A("S1", 1, 1) :> Kc(1) @@ A("S1", 1, 2) :> Kc(1) @@ A("S1", 1, 3) :> Kc(1)
                   @@ A("S1", 2, 1) :> Fm(CallN("SUM", <<Rng("", 1, 1, 1, 3)>>))
-                  @@ A("S1", 3, 1) :> Fm(Bin("+", CallN("SUM", <<Rng("", 1, 1, 1, 2)>>), CallN("SUM", <<Rng("", 1, 2, 1, 3), RelRef(2, 1)>>))) ),
+                  @@ A("S1", 3, 1) :> Fm(Bin("+", CallN("SUM", <<Rng("", 1, 1, 1, 2)>>), CallN("SUM", <<Rng("", 1, 2, 1, 3), RelRef(2, 1)>>)))
+                  @@ A("S1", 4, 1) :> Fm(Bin("+", CallN("COUNTA", <<Rng("", 1, 1, 1, 3)>>), RelRef(1, 3))) ),
          names |-> <<>>, inputs |-> {A("S1", 1, 1), A("S1", 1, 2)}]
     [] i = "kinds" ->        \* every kind of constant and of computed result (C12)
         [cells |-> ( A("S1", 1, 1) :> Kc(1)
@@ -84,6 +86,12 @@ ShapeDef(i) ==
                   @@ A("S1", 3, 1) :> Fm(Bin("+", RelRef(2, 1), Ref("S 2", 2, 1, FALSE, FALSE)))
                   @@ A("S 2", 3, 1) :> Fm(Bin("-", RelRef(2, 1), Ref("S1", 2, 1, TRUE, TRUE))) ),
          names |-> <<>>, inputs |-> {A("S1", 1, 1), A("S 2", 1, 1)}]
+    [] i = "named2" ->       \* two defined names standing for the same cell, both used by one formula
+        [cells |-> ( A("S1", 1, 1) :> Kc(1) @@ A("S1", 1, 2) :> Kc(1)
+                  @@ A("S1", 2, 2) :> Fm(Bin("+", NameRef("Rate"), NameRef("total_1")))
+                  @@ A("S1", 3, 1) :> Fm(Bin("*", RelRef(2, 2), CallN("COUNTA", <<Rng("", 1, 1, 1, 2)>>))) ),
+         names |-> ("Rate" :> Ref("S1", 1, 2, TRUE, TRUE) @@ "total_1" :> Ref("S1", 1, 2, TRUE, TRUE)),
+         inputs |-> {A("S1", 1, 1), A("S1", 1, 2)}]
     [] i = "named" ->
         [cells |-> ( A("S1", 1, 1) :> Kc(1) @@ A("S1", 1, 2) :> Kc(1)
                   @@ A("S1", 2, 1) :> Fm(Bin("+", Bin("*", NameRef("Rate"), N2), RelRef(1, 2)))
@@ -102,7 +110,8 @@ Cells == DOMAIN ShapeDef(shape).cells
 Names == DOMAIN ShapeDef(shape).names
 Inputs == ShapeDef(shape).inputs
 FormulaCells == {c \in Cells : content[c].c = "formula"}
-SetVals == <<Whole(2), Whole(3), Bool(TRUE)>>      \* TRUE: equal to the initial 1 under a naive ==, but another value
+\* TRUE: equal to the initial 1 under a naive ==, but another value; 0: a value that "holds nothing" to a naive truth test
+SetVals == SubSeq(<<Whole(2), Bool(TRUE), Whole(0), Whole(3)>>, 1, NSet)
 
 Wb(cont) == [cells |-> cont, names |-> ShapeDef(shape).names]
 Fresh(cont, c) == Eval(cont[c].ast, c[1], Wb(cont))
@@ -197,6 +206,13 @@ Persist == /\ "persist" \in Ops /\ ~Closed
            /\ obs' = [op |-> "persist"]
            /\ UNCHANGED <<shape, inp, stored, evald, gmemo, leak>>
 
+\* an intermediate persist: the file is written, the history goes on (a later Persist overwrites it)
+PersistMid == /\ "persistmid" \in Ops /\ CanStep
+              /\ hist' = Append(hist, [op |-> "persistmid", x |-> <<"", 0, 0>>, v |-> [t |-> "none"], res |-> [t |-> "none"],
+                                       stored |-> [c \in DOMAIN stored |-> stored[c]]])
+              /\ obs' = [op |-> "persistmid"]
+              /\ UNCHANGED <<shape, inp, stored, evald, gmemo, leak>>
+
 \* Extract(focus): the cells the focus depends on, directly or transitively (C13)
 RECURSIVE ClosureN(_, _)
 ClosureN(S, n) == IF n = 0 THEN S
@@ -217,6 +233,7 @@ Extract(fc, fn) == \* fc: focused cells, fn: focused names
     /\ UNCHANGED <<shape, inp, stored, evald, gmemo, leak>>
 
 Next == \/ Persist
+        \/ PersistMid
         \/ \E fc \in SUBSET Cells, fn \in SUBSET Names : Extract(fc, fn)
         \/ "set" \in Ops /\ \E a \in Inputs, i \in 1..Len(SetVals) : Set(a, SetVals[i])
         \/ "setname" \in Ops /\ \E nm \in Names, i \in 1..Len(SetVals) : SetByName(nm, SetVals[i])
